@@ -24,6 +24,9 @@ def gen_consts(v):
         ('DMP_SIZE_MASK', ac + 'DMPHeader::SIZE_MASK'),
         ('DMP_TWO_BYTES', ac + 'TWO_BYTES'),
         ('DMP_RANGE_EQUAL', ac + 'RANGE_EQUAL'),
+        ('E131_PREVIEW_DATA_MASK', ac + 'E131Header::PREVIEW_DATA_MASK'),
+        ('E131_STREAM_TERMINATED_MASK', ac + 'E131Header::STREAM_TERMINATED_MASK'),
+        ('VECTOR_E131_DATA', ac + 'VECTOR_E131_DATA'),
         ('ARTNET_MAX_MERGE_SOURCES', an + 'ArtNetNodeImpl::MAX_MERGE_SOURCES'),
         ('ARTNET_MERGE_TIMEOUT', an + 'ArtNetNodeImpl::MERGE_TIMEOUT'),
     ]
@@ -31,7 +34,7 @@ def gen_consts(v):
     tmp = os.path.join(v.BUILD, ID, 'Gen.v.tmp')
     os.makedirs(os.path.dirname(tmp), exist_ok=True)
     err = v.gen_consts_cpp(ID, ['ola/Constants.h', 'ola/acn/ACNVectors.h', 'libs/acn/DMPHeader.h',
-                                'libs/acn/DMPAddress.h', 'libs/acn/DMPE131Inflator.h',
+                                'libs/acn/DMPAddress.h', 'libs/acn/E131Header.h', 'libs/acn/DMPE131Inflator.h',
                                 'plugins/artnet/ArtNetNode.h'], ents, tmp)
     if err:
         return err
@@ -48,12 +51,12 @@ def gen_consts(v):
             f.write(new)
     return None
 
-RULE = ('histories of 1-30 packets: sACN from <= 8 CIDs with priorities {0,99,100,101,200,201,255}, sequence '
+RULE = ('histories of 1-30 packets (65% of the sACN ones as framing-layer bytes through the real E131Inflator/E131InflatorRev2 -> DMPE131Inflator chain, options byte over all combinations of preview/terminate/force-sync plus random reserved bits; the rest as constructed HeaderSets): sACN from <= 8 CIDs with priorities {0,99,100,101,200,201,255}, sequence '
         'deltas -25..+5 (wrap-around included), gaps {0,1us,2.499999,2.5,2.500001,9.999999,10,10.000001 s, '
         'small}, terminate/preview/rev2 flags, start codes, frame lengths {0,1,2,512,513,small}, malformed DMP '
         'header/vector/increment/short PDUs, plus scripted scenarios (7th/8th source, priority hand-over both '
         'ways, expiry boundary, full sequence sweep); Art-Net from <= 4 addresses (incl. the wildcard address), '
-        'HTP and LTP, gaps around 10 s, length-field/data-length mismatches; plus static-look histories: a sender repeating a byte-identical frame (sACN: with advancing sequence numbers) in short gaps summing past 10 s / 2.5 s next to a concurrently changing sender, then a late third (sACN: further/7th) sender. Compared after every packet: '
+        'HTP and LTP (with SetMergeMode switches mid-history), gaps around 10 s, length-field/data-length mismatches; plus static-look histories: a sender repeating a byte-identical frame (sACN: with advancing sequence numbers) in short gaps summing past 10 s / 2.5 s next to a concurrently changing sender, then a late third (sACN: further/7th) sender. Compared after every packet: '
         'callback count, priority byte, registered buffer (SPEC) and the tracked-source tables (internal). '
         'After every packet the model driver also evaluates the extracted text-level specification (TextSpec/TextCheck: text_out, xstep, verdict; Art-Net: atext_step) and prints SPEC key txt = buffer agrees with the property text at every packet, or departs from it only in a classified way (known= hand-down gap / stale after discard / sequence window forgotten); histories with more than six live top-priority sources are not judged (text silent on which six). non-trivial = at least one callback and at least two distinct output buffers in the trace; '
         'distinct = distinct model output line')
@@ -61,7 +64,8 @@ ASSUMPTIONS = ['time is supplied through interposed clock_gettime/gettimeofday (
                'one registered universe / one Art-Net output port per history',
                'a priority pointer is registered with SetHandler (the E1.31 plugin always passes one)',
                'DmxBuffer is used through its abstract semantics (C02)']
-TRUSTED = ['modelled rather than verified: DMPE131Inflator::HandlePDUData/TrackSourceIfRequired, '
+TRUSTED = ['modelled rather than verified: E131Inflator/E131InflatorRev2::DecodeHeader (options byte masks, framing vector), '
+           'DMPE131Inflator::HandlePDUData/TrackSourceIfRequired, '
            'DecodeAddress(TWO_BYTES,RANGE_EQUAL), ArtNetNodeImpl::HandleDataPacket (size/net/universe/length '
            'clamp) and UpdatePortFromSource; DmxBuffer Set/HTPMerge/Reset as list operations; constants '
            'regenerated into Gen.v (EXPIRY_INTERVAL parsed from the .cpp and cross-checked at run time)']
@@ -266,6 +270,8 @@ def gen_art(rng):
         elif r < 0.16: kw['net'] = rng.choice([0, 3, 5])
         elif r < 0.20: kw['univ'] = rng.choice([0, 0x22, 0x24, 0x33])
         steps.append(art_step(dt, rng.choice(addrs), data, **kw))
+        if rng.random() < 0.06:
+            steps.append('m:%d' % rng.randrange(2))     # SetMergeMode mid-history
     return 'art %d %s' % (1 if rng.random() < 0.4 else 0, ','.join(steps))
 
 
@@ -332,18 +338,38 @@ def gen_sacn_static(rng):
     return 'sacn %d 1 %s' % (1 if rng.random() < 0.5 else 0, ','.join(steps))
 
 
+def to_wire(rng, payload):
+    """re-express an sACN history as framing-layer bytes for the real E131Inflator / E131InflatorRev2:
+    the options byte carries preview (bit 7) and terminate (bit 6) together with every combination of the
+    remaining bits; rev-2 framing has no options byte"""
+    kind, ip, univ, steps = payload.split(' ')
+    out = []
+    for s in steps.split(','):
+        dt, vec, cid, prio, seq, u, flags, dmph, pdu = s.split(':')
+        flags = int(flags)
+        rev2 = 1 if flags & 4 else 0
+        opts = (0x80 if flags & 1 else 0) | (0x40 if flags & 2 else 0)
+        r = rng.random()
+        if r < 0.45:
+            opts |= 0x20                       # E1.31-2016 force-synchronisation bit
+        if r < 0.25 or r > 0.85:
+            opts |= rng.randrange(32)          # reserved low bits
+        fvec = 2 if rng.random() < 0.97 else rng.choice([0, 1, 3, 4])
+        out.append('%s:%s:%d:%d:%s:%s:%d:%s:%s:%s:%s' % (dt, cid, rev2, fvec, prio, seq, opts, u, vec, dmph, pdu))
+    return 'sacnw %s %s %s' % (ip, univ, ','.join(out))
+
+
 def gen_cases(rng, tier):
     quick = tier == 'quick'
     yield 'consts'
     n = 1500 if quick else 120000
     for i in range(n):
         r = rng.random()
-        if r < 0.40:
-            yield gen_sacn_random(rng)
-        elif r < 0.66:
-            yield gen_sacn_scripted(rng)
-        elif r < 0.74:
-            yield gen_sacn_static(rng)
+        if r < 0.74:
+            c = (gen_sacn_random(rng) if r < 0.40 else gen_sacn_scripted(rng) if r < 0.66
+                 else gen_sacn_static(rng))
+            # most histories go through the real framing-layer decoders
+            yield to_wire(rng, c) if rng.random() < 0.65 else c
         elif r < 0.90:
             yield gen_art(rng)
         else:
